@@ -36,6 +36,7 @@ ASSUMPTIONS = [
     "comparison budget 2^10 u k cond(A) ||X_k||",
 ]
 MENU = [1.0, 0.5, 0.25, 2.0 ** -5, 2.0 ** -10]
+MENU_T = [1.0, 0.5, 2.0 ** -3, 2.0 ** -10, 2.0 ** -20]
 
 
 def assign(comp, how, menu):
@@ -56,14 +57,14 @@ def assign(comp, how, menu):
 def cases(tier, seed):
     S = 3 if tier == "quick" else 4
     gammas = [0.5, 1.0] if tier == "quick" else [0.25, 0.5, 0.75, 1.0]
-    menu_n = 5
+    menu = MENU if tier == "quick" else MENU_T
     out = []
     for m, n in itertools.product(range(1, S + 1), repeat=2):
         p = min(m, n)
         for r in range(p + 1):
             for comp in G.compositions(r):
                 for how in ("head", "spread"):
-                    if how == "spread" and (len(comp) == 0 or assign(comp, "head", MENU) == assign(comp, "spread", MENU)):
+                    if how == "spread" and (len(comp) == 0 or assign(comp, "head", menu) == assign(comp, "spread", menu)):
                         continue
                     for kind in ("mono", "hh"):
                         base = f"{m}x{n}/r={r}/c={'-'.join(map(str, comp)) or '0'}/{how}/{kind}"
@@ -77,6 +78,8 @@ def cases(tier, seed):
                                 out.append({"key": f"stop/damped/{base}/tol={tol}", "solver": "damped", "m": m, "n": n, "comp": list(comp), "how": how, "kind": kind, "gamma": 1.0, "cr": True, "sparse": False, "mode": "stop", "tol": tol})
                                 out.append({"key": f"stop/damped-cov/{base}/tol={tol}", "solver": "damped", "m": m, "n": n, "comp": list(comp), "how": how, "kind": kind, "gamma": 1.0, "cr": False, "sparse": False, "mode": "stop", "tol": tol})
                                 out.append({"key": f"stop/third/{base}/tol={tol}", "solver": "third", "m": m, "n": n, "comp": list(comp), "how": how, "kind": kind, "gamma": None, "cr": True, "sparse": False, "mode": "stop", "tol": tol})
+    for c in out:
+        c["tier"] = tier
     return out
 
 
@@ -100,9 +103,9 @@ def penrose(A, X):
 def run_case(case, seed):
     lib = load()
     m, n = case["m"], case["n"]
-    K = 12
+    K = 12 if case.get("tier", "quick") == "quick" else 30
     fill = G.Fill(seed, stream=hash_tag(f"{m}x{n}/{case['kind']}"))
-    s = assign(case["comp"], case["how"], MENU)
+    s = assign(case["comp"], case["how"], MENU if case.get("tier", "quick") == "quick" else MENU_T)
     r = len(s)
     Uq = G.unitary(case["kind"], m, fill, variant=m + 2 * r)
     Vq = G.unitary(case["kind"], n, fill, variant=n + 3 * r + 1)
